@@ -168,7 +168,13 @@ def check(case):
         if gs < 1e-10 * (1 + g0) and onp.linalg.norm(xs - onp.array(case['x0'])) <= 50:
             H = onp.asarray(fh(np.array(xs), p_req))
             w = onp.linalg.eigvalsh(0.5 * (H + H.T))
-            if w[0] > 0 and w[-1] / w[0] <= 1e3:
+            # "well-conditioned" has to hold where the solver works, not only at the minimiser: the Hessian spectrum over the
+            # minimiser, the start point and every reported iterate must stay within a condition number of 1e3
+            lo_w, hi_w = w[0], w[-1]
+            for xq in [onp.array(case['x0'])] + reported:
+                wq = onp.linalg.eigvalsh(onp.asarray(fh(np.array(xq), p_req)))
+                lo_w, hi_w = min(lo_w, wq[0]), max(hi_w, wq[-1])
+            if lo_w > 0 and hi_w / lo_w <= 1e3:
                 classes.append('convex-domain')
                 if not flag:
                     fails.append(Failure('convex-success', 'no success on a strictly convex problem (condition %.1e, |x0-x*| = %.2g): |grad| = %.3e'
